@@ -5,6 +5,7 @@ S=$(mktemp -d /tmp/vf_demo.XXXX)
 trap 'rm -rf "$S"' EXIT
 rsync -a --exclude target --exclude .git "$REPO"/ "$S"/
 cat /verif/findings/f1_f2_demo.rs >> "$S"/zkabacus-crypto/src/proofs.rs
+cat /verif/findings/f7_demo_zkabacus.rs >> "$S"/zkabacus-crypto/src/proofs.rs
 cat /verif/findings/f3_f6_demo_zkabacus.rs >> "$S"/zkabacus-crypto/src/lib.rs
 cat /verif/findings/f4_f5_demo_zkchannels.rs >> "$S"/zkchannels-crypto/src/serde.rs
 cd "$S" && CARGO_TARGET_DIR=/verif/.cache/demo-target cargo test --offline --no-fail-fast --features bincode -p zkabacus-crypto -p zkchannels-crypto --lib "$T" 2>&1 | grep -E '^test |test result|panicked|INVARIANT|FORGERY|error' | head -40
